@@ -501,9 +501,22 @@ def shared_object_session(ctx):
     import pyexec
     keep = []
     cap = 6000 if ctx.thorough else 700
-    stride = max(1, len(ctx.replayable) // cap)
-    # contiguous runs (neighbouring cases share keys and buffers) rather than isolated picks
-    sample = [x for i, x in enumerate(ctx.replayable) if (i // 25) % stride == 0][:cap]
+    # contiguous runs (neighbouring cases share keys and buffers) rather than isolated picks, and every operation with
+    # its share: the cases are grouped by operation (in generation order), each group is cut into runs of 25, and the
+    # runs are dealt out round-robin until the cap is reached; the sample is then put back in generation order
+    groups = {}
+    for i, x in enumerate(ctx.replayable):
+        wl = x[0].split(None, 8)
+        groups.setdefault(wl[0] + (" " + wl[7] if wl[0] == "cvn" and len(wl) > 7 else ""), []).append(i)
+    runs = {k: [v[j:j + 25] for j in range(0, len(v), 25)] for k, v in groups.items()}
+    for k in runs:                                         # spread over the group, not only its beginning
+        r = runs[k]; runs[k] = r[::2] + r[1::2]
+    picked = []
+    while len(picked) < cap and any(runs.values()):
+        for k in sorted(runs):
+            if runs[k] and len(picked) < cap:
+                picked += runs[k].pop(0)
+    sample = [ctx.replayable[i] for i in sorted(set(picked))][:cap]
     for line, proj, want in sample:
         if len(line) > 20000:
             continue
